@@ -1,6 +1,8 @@
 //! Generates the corpora at build time, against the macros and the code generator in /repo.
 use std::path::PathBuf;
 
+#[path = "gen/codegen.rs"]
+mod codegen;
 #[path = "gen/introspect.rs"]
 mod introspect;
 #[path = "gen/proxy.rs"]
@@ -14,6 +16,17 @@ fn main() {
         std::fs::write(out.join(dir).join("proxy_corpus.rs"), code).unwrap();
         let (code, _n) = introspect::generate(thorough);
         std::fs::write(out.join(dir).join("introspect_corpus.rs"), code).unwrap();
+        // the code generator under test is the one in /repo
+        let run_codegen = |idl: &str| -> Result<String, String> {
+            let iface: zlink::idl::Interface<'_> = idl.try_into().map_err(|e| format!("the IDL does not parse: {e}"))?;
+            std::panic::catch_unwind(|| zlink_codegen::generate_interface(&iface).map_err(|e| format!("{e:#}"))).unwrap_or_else(|_| Err("the code generator panicked".into()))
+        };
+        let g = codegen::generate(thorough, out.join(dir).to_str().unwrap(), &run_codegen);
+        for (name, src) in &g.modules {
+            std::fs::write(out.join(dir).join(name), src).unwrap();
+        }
+        std::fs::write(out.join(dir).join("codegen_corpus.rs"), &g.index).unwrap();
+        let _ = g.count;
     }
     println!("cargo:rerun-if-changed=gen");
     println!("cargo:rerun-if-changed=build.rs");
